@@ -136,6 +136,7 @@ func rulesC04(c *Ctx) {
 	c04Round4(c)
 	c04Round5(c)
 	remoteNodePresentRule(c, "C04.deref")
+	remoteProofVersionRule(c, "C04.merge")
 	ix := c.P.BuildIndex()
 
 	const rs = "storage/mkvs.(*cache).remoteSync"
